@@ -184,7 +184,37 @@ def gen_case(rng, tier, T_modes=("zero", "pos", "mixed", "named", "empty")):
     upd = []
     if kind and t and rng.random() < 0.12:
         upd = [(rng.choice(t)[0], F(0))]          # stale variables
+    elif kind and not kind.endswith("Matrix") and t and rng.random() < 0.12:
+        # a variable that is registered first and then disappears: it keeps the smallest integer label while later ones are in use
+        used = {x for k, _ in t for x in k}
+        fresh = [l for l in (C.POOL if uni == 'pool' else range(8)) if l not in used]
+        if fresh:
+            t = [((fresh[0],), F(1))] + t
+            upd = [((fresh[0],), F(0))]
+    zero_opt = False
+    if t and rng.random() < 0.12:
+        # the optimum is exactly 0 (a penalty-style model): results with value 0 next to worse ones
+        vs = sorted({x for k, _ in t for x in k}, key=C.enc)
+        if 1 <= len(vs) <= 6:
+            import itertools
+            dom = (1, -1) if spin else (0, 1)
+            tt = [(k, v) for k, v in t if k]
+
+            def val(x):
+                tot = F(0)
+                for k, v in tt:
+                    pr = 1
+                    for l in k:
+                        pr *= x[l]
+                    tot += v * pr
+                return tot
+            mn = min(val(dict(zip(vs, b))) for b in itertools.product(dom, repeat=len(vs)))
+            t = tt + ([((), -mn)] if mn != 0 else [])
+            upd = [u for u in upd if u[0] in [k for k, _ in t]]
+            zero_opt = True
     mode = rng.choice(T_modes)
+    if zero_opt and "empty" in T_modes and "pos" in T_modes:
+        mode = rng.choice(["empty", "pos"])       # no cooling: the results differ from each other
     sched = None
     if mode == "zero":
         Ts = [F(0)] * rng.randint(1, 4)
@@ -210,7 +240,7 @@ def gen_case(rng, tier, T_modes=("zero", "pos", "mixed", "named", "empty")):
             init = [[i, rng.choice(dom)] for i in range(max(labs) + 1)]
     return {"fn": fn, "kind": kind, "terms": G.jraw(t), "upd": G.jraw(upd),
             "Ts": None if Ts is None else [[x.numerator, x.denominator] for x in Ts], "sched": sched,
-            "num": rng.choice([1, 1, 1, 2, 2, 3, 3, 0, -1]) if rng.random() < 0.9 else 4,
+            "num": (rng.choice([3, 4, 6]) if zero_opt else rng.choice([1, 1, 1, 2, 2, 3, 3, 0, -1]) if rng.random() < 0.9 else 4),
             "in_order": rng.random() < 0.5, "init": init, "seed": rng.randint(0, 2 ** 31 - 1),
             # an explicit temperature list is used as it is: anneal_duration (and temperature_range) are documented as ignored then
             "dur": (rng.choice([1, 1, 2, 3]) if (Ts is not None and rng.random() < 0.35) else None),
